@@ -63,29 +63,70 @@ Definition hang_msg : list N :=
   bytes_of_string "8=FIX.4.2|9=5|35=E|49=A|56=B|34=7|66=L1|73=1|11=O1|78=1|A=1|10=000|".
 Local Close Scope string_scope.
 
-(* F06: a value of 2048 bytes overruns val[2048] of MessageBase::decode (2047 bytes do not), a
-   MsgType of 100 bytes overruns mtype[32] of Message::factory through extract_header; both
-   inputs violate only the run bound of tokens_bounded *)
-Lemma c03_val_overflow_refuted_lemma :
-  exists c b1 b2 b3,
-    c03_wf c = true /\
-    factory c real_caps b1 false false = OOB site_val_write /\ dec_class c b1 false false = DDec /\
-    factory c real_caps b2 false false = OOB site_val_write /\ dec_class c b2 false false = DHdr /\
-    safe (factory c real_caps b3 false false) /\ tokens_bounded b3 = true /\
-    tokens_bounded b1 = false /\ tokens_bounded b2 = false.
+Local Open Scope string_scope.
+Definition val_token (n : N) : list N := bytes_of_string "112=" ++ xs n ++ [SOH].
+Definition mtype_token (n : N) : list N := bytes_of_string "35=" ++ xs n ++ [SOH].
+Definition tag_token (n : N) : list N := repeat 56 (N.to_nat n) ++ bytes_of_string "=F|".
+(* a Length field (93, trailer) followed by n digits / by a tag longer than its own *)
+Definition fw_digits (n : N) : list N :=
+  bytes_of_string "8=FIX.4.2|9=5|35=0|49=A|56=B|34=7|93=1|" ++ repeat 57 (N.to_nat n) ++ bytes_of_string "=x|10=000|".
+Definition fw_uninit : list N := bytes_of_string "8=FIX.4.2|9=5|35=0|49=A|56=B|34=7|93=1|8989=x|10=000|".
+Local Close Scope string_scope.
+
+(* F06 (repaired by d48d8ce): the ORIGINAL extract_element writes a value of 2048 bytes through
+   val[2048] (2047 bytes fit); the repaired one fails the extraction, and factory answers such
+   messages with an exception *)
+Lemma c03_val_overflow_orig_refuted_lemma :
+  extract_element_orig (val_token 2048) (lenN (val_token 2048)) MAX_FLD_LENGTH MAX_FLD_LENGTH = XOOB site_val_write /\
+  (exists t v r, extract_element_orig (val_token 2047) (lenN (val_token 2047)) MAX_FLD_LENGTH MAX_FLD_LENGTH = XOk t v r) /\
+  (exists t v, extract_element (val_token 2048) (lenN (val_token 2048)) MAX_FLD_LENGTH MAX_FLD_LENGTH = XFail t v) /\
+  (exists t v r, extract_element (val_token 2047) (lenN (val_token 2047)) MAX_FLD_LENGTH MAX_FLD_LENGTH = XOk t v r) /\
+  safe (factory ex_ctx real_caps (hb_val 2048) false false) /\ safe (factory ex_ctx real_caps (hb_val 3000) false false).
 Proof.
-  exists ex_ctx, (hb_val 2048), (long_mtype 100), (hb_val 2047).
-  split; [vm_compute; reflexivity|]. split; [vm_compute; reflexivity|]. split; [vm_compute; reflexivity|].
-  split; [vm_compute; reflexivity|]. split; [vm_compute; reflexivity|]. split; [vm_compute; exact I|].
-  split; [vm_compute; reflexivity|]. split; vm_compute; reflexivity.
+  split; [vm_compute; reflexivity|]. split; [do 3 eexists; vm_compute; reflexivity|].
+  split; [do 2 eexists; vm_compute; reflexivity|]. split; [do 3 eexists; vm_compute; reflexivity|].
+  split; vm_compute; exact I.
 Qed.
 
-(* F08: decode_group appends empty elements for ever; the input is bounded and the schema wf *)
-Lemma c03_group_hang_refuted_lemma :
-  exists c bytes, c03_wf c = true /\ tokens_bounded bytes = true /\
-                  factory c real_caps bytes false false = Diverge.
+(* F06, header (repaired by d48d8ce): MsgType of 32 bytes through mtype[32], 32 digits through tag[32] *)
+Lemma c03_header_overflow_orig_refuted_lemma :
+  extract_element_orig (mtype_token 32) (lenN (mtype_token 32)) MAX_MSGTYPE_FIELD_LEN MAX_MSGTYPE_FIELD_LEN = XOOB site_val_write /\
+  extract_element_orig (tag_token 32) (lenN (tag_token 32)) MAX_MSGTYPE_FIELD_LEN MAX_FLD_LENGTH = XOOB site_tag_write /\
+  (exists t v, extract_element (mtype_token 32) (lenN (mtype_token 32)) MAX_MSGTYPE_FIELD_LEN MAX_MSGTYPE_FIELD_LEN = XFail t v) /\
+  (exists t v, extract_element (tag_token 32) (lenN (tag_token 32)) MAX_MSGTYPE_FIELD_LEN MAX_FLD_LENGTH = XFail t v) /\
+  (exists t v r, extract_element (mtype_token 31) (lenN (mtype_token 31)) MAX_MSGTYPE_FIELD_LEN MAX_MSGTYPE_FIELD_LEN = XOk t v r) /\
+  safe (factory ex_ctx real_caps (long_mtype 100) false false).
 Proof.
-  exists ex_ctx, hang_msg.
+  split; [vm_compute; reflexivity|]. split; [vm_compute; reflexivity|].
+  split; [do 2 eexists; vm_compute; reflexivity|]. split; [do 2 eexists; vm_compute; reflexivity|].
+  split; [do 3 eexists; vm_compute; reflexivity|]. vm_compute. exact I.
+Qed.
+
+(* F08 (repaired by a0d41df): the ORIGINAL decode_group on "A=1|" in a group class without
+   mandatory member appends empty elements for ever; the repaired one returns at once *)
+Definition hang_tail : list N := bytes_of_string "A=1|"%string.
+Lemma c03_group_hang_orig_refuted_lemma :
+  c03_wf ex_ctx = true /\
+  decode_group_orig ex_ctx real_caps hang_tail (lenN hang_tail) 10 (create_group ex_orders true) 78 0 = Diverge /\
+  (exists m, decode_group ex_ctx real_caps hang_tail (lenN hang_tail) 10 (create_group ex_orders true) 78 0 = Ok (m, 0)) /\
+  safe (factory ex_ctx real_caps hang_msg false false).
+Proof.
+  split; [vm_compute; reflexivity|]. split; [vm_compute; reflexivity|].
+  split; [eexists; vm_compute; reflexivity|]. vm_compute. exact I.
+Qed.
+
+(* NOT repaired: extract_element_fixed_width.  After a Length field, the 2049th digit is written
+   past tag[2048] (2048 digits fill it, without terminator); a tag longer than the Length field's
+   own makes decode read tag[] beyond the bytes written *)
+Lemma c03_fixed_width_refuted_lemma :
+  factory ex_ctx real_caps (fw_digits 2049) false false = OOB site_tag_write /\
+  factory ex_ctx real_caps (fw_digits 2048) false false = OOB site_uninit_tag /\
+  digit_runs_ok MAX_FLD_LENGTH 0 (fw_digits 2047) = true /\ digit_runs_ok MAX_FLD_LENGTH 0 (fw_digits 2049) = false /\
+  factory ex_ctx real_caps fw_uninit false false = OOB site_uninit_tag /\
+  is_bytes (fw_digits 2049) = true /\ is_bytes fw_uninit = true /\ digit_runs_ok MAX_FLD_LENGTH 0 fw_uninit = true.
+Proof.
+  split; [vm_compute; reflexivity|]. split; [vm_compute; reflexivity|].
+  split; [vm_compute; reflexivity|]. split; [vm_compute; reflexivity|]. split; [vm_compute; reflexivity|].
   split; [vm_compute; reflexivity|]. split; vm_compute; reflexivity.
 Qed.
 
@@ -109,8 +150,8 @@ Qed.
 (* ------------------------------------------------------------------ non-vacuity *)
 Definition ex_list_bytes : list N := match msg_encode ex_ctx ex_list with Ok (b, _) => b | _ => [] end.
 
-(* a schema meeting the hypotheses of the strong theorem: ex_ctx without the Length/data pair of
-   the trailer and with AllocAccount (79) mandatory in the nested group *)
+(* a schema meeting the hypothesis of the no-data theorem: ex_ctx without the Length/data pair of
+   the trailer *)
 Definition safe_allocs : gmeta := GM [ tr 79 15 1 true false false false; tr 80 9 2 false false false false ] [] true.
 Definition safe_orders : gmeta := GM
   [ tr 11 15 1 true false false false; tr 38 9 2 false false false false; tr 78 5 3 false true false false ]
@@ -125,27 +166,63 @@ Definition safe_ctx : ctx := mkCtx (c_fields ex_ctx)
   (c_hdr_init ex_ctx) (c_trl_init ex_ctx) (c_begin ex_ctx) render_default.
 
 Lemma c03_nonvacuous_lemma :
-  c03_wf ex_ctx = true /\ tokens_bounded ex_list_bytes = true /\
+  c03_wf ex_ctx = true /\ is_bytes ex_list_bytes = true /\ lenN ex_list_bytes < 4294967296 /\
   (exists m, factory ex_ctx real_caps ex_list_bytes false false = Ok m) /\
-  c03_nohang safe_ctx = true /\ c03_nodata safe_ctx = true /\
-  (exists m, factory safe_ctx real_caps ex_list_bytes false false = Ok m) /\
-  (* the hang input is rejected by the schema in which the nested group has a mandatory member *)
-  (exists e, factory safe_ctx real_caps hang_msg false false = Exc e).
-Proof.
-  split; [vm_compute; reflexivity|]. split; [vm_compute; reflexivity|].
-  split; [eexists; vm_compute; reflexivity|].
-  split; [vm_compute; reflexivity|]. split; [vm_compute; reflexivity|].
-  split; eexists; vm_compute; reflexivity.
-Qed.
-
-(* fast_atoi<int> (F09): the texts UBSan reports, and texts at the edge it does not *)
-Lemma c03_atoi_ub_lemma :
-  atoi_ub (bytes_of_string "2147483647") = true /\ atoi_ub (bytes_of_string "-") = false /\
-  atoi_ub (bytes_of_string "-5") = true /\ atoi_ub (bytes_of_string "2147483599") = false /\
-  atoi_ub (bytes_of_string "99999999999") = true /\ atoi_ub (bytes_of_string "0") = false.
+  c03_wf safe_ctx = true /\ c03_nodata safe_ctx = true /\
+  (exists m, factory safe_ctx real_caps ex_list_bytes false false = Ok m).
 Proof.
   split; [vm_compute; reflexivity|]. split; [vm_compute; reflexivity|]. split; [vm_compute; reflexivity|].
-  split; [vm_compute; reflexivity|]. split; vm_compute; reflexivity.
+  split; [eexists; vm_compute; reflexivity|].
+  split; [vm_compute; reflexivity|]. split; [vm_compute; reflexivity|].
+  eexists; vm_compute; reflexivity.
+Qed.
+
+(* fast_atoi<int> (F09, partly repaired by a8219b1): an optional '-' and at most 9 digits never
+   overflow; the edges of the int range are exact; what remains is the missing range test *)
+Lemma atoi_digits_safe (neg : bool) : forall (l : list N) (r : Z),
+  forallb is_digit l = true ->
+  (0 <= (if neg then - r else r))%Z ->
+  (((if neg then - r else r) + 1) * 10 ^ Z.of_nat (List.length l) <= 2147483648)%Z ->
+  fst (fold_left (atoi_ub_step neg) l (false, r)) = false.
+Proof.
+  induction l as [|ch l IH]; intros r Hd H0 Hb; [reflexivity|].
+  cbn [forallb] in Hd. apply andb_true_iff in Hd. destruct Hd as [Hc Hd].
+  assert (Hdig : (0 <= schar ch - 48 <= 9)%Z).
+  { unfold is_digit in Hc. apply andb_true_iff in Hc. destruct Hc as [H1 H2].
+    apply N.leb_le in H1. apply N.leb_le in H2. unfold schar.
+    destruct (ch <? 128) eqn:E; [lia|apply N.ltb_ge in E; lia]. }
+  cbn [List.length] in Hb. rewrite Nat2Z.inj_succ, Z.pow_succ_r in Hb by lia.
+  assert (Hp : (0 < 10 ^ Z.of_nat (List.length l))%Z) by (apply Z.pow_pos_nonneg; lia).
+  cbn [fold_left]. unfold atoi_ub_step at 2.
+  assert (Hm : in_i32 (r * 10) = true).
+  { unfold in_i32. apply andb_true_iff. split; [apply Z.leb_le|apply Z.ltb_lt]; destruct neg; nia. }
+  rewrite Hm. cbn [negb].
+  set (d := (schar ch - 48)%Z) in *.
+  assert (Hs : in_i32 (if neg then r * 10 - d else r * 10 + d) = true).
+  { unfold in_i32. apply andb_true_iff. split; [apply Z.leb_le|apply Z.ltb_lt]; destruct neg; nia. }
+  rewrite Hs. apply IH; [exact Hd| |]; destruct neg; nia.
+Qed.
+
+Lemma c03_fast_atoi_safe_partial_lemma s : small_int_text s = true -> atoi_ub s = false.
+Proof.
+  unfold small_int_text, atoi_ub, atoi_run. destruct (cstr s) as [|c rest]; [reflexivity|].
+  assert (Hpow : forall l : list N, lenN l <= 9 -> (10 ^ Z.of_nat (List.length l) <= 1000000000)%Z).
+  { intros l Hl. rewrite lenN_length in Hl. change 1000000000%Z with (10 ^ 9)%Z.
+    apply Z.pow_le_mono_r; lia. }
+  destruct (c =? 45); intros H; apply andb_true_iff in H; destruct H as [Hd Hl]; apply N.leb_le in Hl.
+  - apply (atoi_digits_safe true); [exact Hd|cbn; lia|]. pose proof (Hpow _ Hl). cbn [Z.opp]. lia.
+  - apply (atoi_digits_safe false); [exact Hd|lia|]. pose proof (Hpow _ Hl). lia.
+Qed.
+
+Lemma c03_atoi_ub_lemma :
+  atoi_ub (bytes_of_string "2147483647") = false /\ atoi_ub (bytes_of_string "-2147483648") = false /\
+  atoi_ub (bytes_of_string "2147483648") = true /\ atoi_ub (bytes_of_string "-2147483649") = true /\
+  atoi_ub (bytes_of_string "99999999999") = true /\ atoi_ub (bytes_of_string "1e3") = false /\
+  atoi_val (bytes_of_string "-5") = (-5)%Z /\ atoi_val (bytes_of_string "1e3") = 633%Z.
+Proof.
+  split; [vm_compute; reflexivity|]. split; [vm_compute; reflexivity|]. split; [vm_compute; reflexivity|].
+  split; [vm_compute; reflexivity|]. split; [vm_compute; reflexivity|]. split; [vm_compute; reflexivity|].
+  split; vm_compute; reflexivity.
 Qed.
 
 (* date/time parsers (new finding): a month 14, a char below '0', a year whose ticks leave int64;
